@@ -133,15 +133,28 @@ def import_rules():
         importlib.import_module("rules." + mi.name)
 
 
-def run_rules(prog, rule_ids):
+def run_rules(prog, rule_ids, errors=None):
+    """Runs every rule; a rule that cannot analyse today's tree (anchor vanished, floor not met, internal error) is recorded in
+    `errors` and does not stop the other rules - a violation found by another rule must not be hidden behind it.  Without an
+    `errors` list the first such problem is raised."""
     runs = []
     for rid in rule_ids:
         r = RULES[rid]
         rr = RuleRun(r, prog)
-        r.fn(prog, rr)
-        if len(rr.instances) < r.floor:
-            raise AnalysisError("[%s] analysed %d instances, floor is %d (anchor vanished or idiom not recognised)"
-                                % (rid, len(rr.instances), r.floor))
+        try:
+            r.fn(prog, rr)
+            if len(rr.instances) < r.floor:
+                raise AnalysisError("[%s] analysed %d instances, floor is %d (anchor vanished or idiom not recognised)"
+                                    % (rid, len(rr.instances), r.floor))
+        except AnalysisError as e:
+            if errors is None:
+                raise
+            errors.append((rid, str(e) if str(e).startswith("[") else "[%s] %s" % (rid, e)))
+        except Exception:
+            if errors is None:
+                raise
+            errors.append((rid, "[%s] internal error: %s" % (rid, traceback.format_exc().strip().splitlines()[-1])))
+            traceback.print_exc()
         runs.append(rr)
     return runs
 
@@ -167,7 +180,8 @@ def check_property(prop, tier, repo="/repo", seed=0, write_evidence=True, only_r
             rids = [r for r in rids if r in only_rules]
         if not rids:
             raise AnalysisError("no armed rule for property %s" % prop)
-        runs = run_rules(prog, rids)
+        errors = []
+        runs = run_rules(prog, rids, errors)
     except AnalysisError as e:
         print("ANALYSIS-ERROR property=%s %s" % (prop, e))
         return 2
@@ -212,11 +226,15 @@ def check_property(prop, tier, repo="/repo", seed=0, write_evidence=True, only_r
                 json.dump({"property": prop, "tier": tier, **f.to_json()}, fh, indent=1)
             print("FINDING %s" % f)
             print("VIOLATION property=%s replay=%s" % (prop, path))
-    if write_evidence:
+    for rid, msg in errors:
+        print("ANALYSIS-ERROR property=%s %s" % (prop, msg))
+    if errors and code == 0:
+        code = 2
+    if write_evidence and not errors:
         write_evidence_file(prop, tier, seed, prog, runs, viol, kn_hit, time.time() - t0)
     if not quiet:
-        print("RESULT property=%s tier=%s rules=%d instances=%d violations=%d known=%d wall=%.2fs" % (
-            prop, tier, len(runs), n_inst, len(viol), len(seen_k), time.time() - t0))
+        print("RESULT property=%s tier=%s rules=%d instances=%d violations=%d known=%d analysis_errors=%d wall=%.2fs" % (
+            prop, tier, len(runs), n_inst, len(viol), len(seen_k), len(errors), time.time() - t0))
     return code
 
 
